@@ -234,6 +234,7 @@ CHECKS["C16"] = {
     "jobs": [
         J("value", "c16", "TestValue", 3000, 80000, 8),
         J("value-fmtlogger", "c16", "TestValue", 800, 10000, 2, env={"VERIF_FMT_LOGGER": "1"}),
+        J("value-decliner", "c16", "TestValue", 800, 10000, 2, env={"VERIF_DECLINER": "1"}),  # a priority-ordered user post-processor that declines every component
         J("prefix", "c16", "TestPrefix", 800, 20000, 4),
         J("wire", "c16", "TestWire", 600, 10000, 2),
         J("retryafterset", "c16", "TestRetryAfterSet", 800, 10000, 2),
@@ -260,6 +261,7 @@ CHECKS["C17"] = {
         J("argsvalues", "c17", "TestArgsValues", 300, 5000, 2),
         J("known", "c17", "TestKnownAnyNumberKind", None, None),
         J("preinit", "c17", "TestPreInitializedConfigure", 500, 8000, 2),
+        J("roundtrip-decliner", "c17", "TestRoundTrip", 800, 10000, 2, env={"VERIF_DECLINER": "1"}),  # a priority-ordered user post-processor that declines every component
     ],
     "assumptions": [
         "strings containing the placeholder / expression delimiters ${ and #{ are not generated: configured values containing placeholders are resolved by design (C16)",
@@ -275,6 +277,8 @@ CHECKS["C18"] = {
         J("validatevar", "c18", "TestValidateVar", 3000, 80000, 8),
         J("validatevar-fmtlogger", "c18", "TestValidateVar", 1500, 20000, 2, env={"VERIF_FMT_LOGGER": "1"}),
         J("expressions-fmtlogger", "c18", "TestExpressions", 800, 10000, 2, env={"VERIF_FMT_LOGGER": "1"}),
+        J("expressions-decliner", "c18", "TestExpressions", 800, 10000, 2, env={"VERIF_DECLINER": "1"}),
+        J("validatevar-decliner", "c18", "TestValidateVar", 800, 10000, 2, env={"VERIF_DECLINER": "1"}),
         J("validatestruct", "c18", "TestValidateStruct", 1000, 20000, 4),
         J("validatemulti", "c18", "TestValidateMulti", 1500, 30000, 4),
 J("retryhistory", "c18", "TestRetryHistory", 600, 15000, 2),
